@@ -1,6 +1,7 @@
 package checks
 
 import (
+	"os"
 	"fmt"
 	"sort"
 	"strings"
@@ -535,7 +536,11 @@ func init() {
 				exsRunning = append(exsRunning, e)
 			}
 		}
+		onlyFaults := os.Getenv("C02_ONLY_FAULTS") != "" // debug: the read-fault part alone
 		runCase := func(idx int64, l *ev.Local, c c02Case, wk, bound int) {
+			if onlyFaults {
+				return
+			}
 			{
 				b := bound
 				if wk >= 3 && b > 1 {
@@ -583,14 +588,24 @@ func init() {
 		r.Extra["restart_order_cases"] = n2
 		// ... and while any one API READ of the pass fails once (the topology counts, the namespaces, the pods of a domain
 		// are all looked up during the pass): a pass may place less, what it commits is judged by the same oracle
-		n3 := enum.Size(len(bl1), len(exsRunning), 2, len(prefs))
+		// batches of <=2 pods: a pod that cannot be placed is only tried again while another pod of the batch makes
+		// progress. quick: the two-node layout and the Ignore policy; thorough: both layouts with nodes, both policies
+		bl2 := batches(len(c02Shapes), 2)
+		rfLayouts, rfPrefs := 1, []options.PreferencePolicy{options.PreferencePolicyIgnore}
+		if r.Tier == "thorough" {
+			rfLayouts, rfPrefs = 2, prefs
+		}
+		n3 := enum.Size(len(bl2), len(exsRunning), rfLayouts, len(rfPrefs))
 		enum.Run(r, n3, func(idx int64, l *ev.Local) {
-			d := enum.Odo(idx, len(bl1), len(exsRunning), 2, len(prefs))
-			c := c02Case{layout: layouts[d[2]], existing: exsRunning[d[1]], batch: bl1[d[0]], pref: prefs[d[3]], workers: 1}
+			d := enum.Odo(idx, len(bl2), len(exsRunning), rfLayouts, len(rfPrefs))
+			c := c02Case{layout: layouts[d[2]], existing: exsRunning[d[1]], batch: bl2[d[0]], pref: rfPrefs[d[3]], workers: 1}
 			ex := &explore.Explorer{Bound: 1, MaxExecs: 2000}
 			ex.Exec = func(run *explore.Run) {
 				env, zones := c02Build(c)
 				taken := env.W.AttachFaultsOpt(run, func(cl *world.Call) bool { return cl.Verb == "get" || cl.Verb == "list" }, false)
+				// reads fail while the pass DECIDES; the NodeClaims it decided on are then created fault-free (the oracle needs
+				// the created objects to know where a new NodeClaim can end up — a creation that fails is not a placement)
+				env.Between = func() { env.W.Client.Hook, env.W.CP.Hook = nil, nil }
 				out := env.runPass(explore.Replay(nil), 1)
 				env.W.Client.Hook, env.W.CP.Hook = nil, nil
 				l.Eval()
